@@ -8,7 +8,7 @@
 (* stricter reader is not a violation (DESIGN.md, C13).                    *)
 (*   RdLines(lines,st,diff) Apply(c,res)* End                              *)
 (*   Wild(h) Apply* WildRender RdLines Apply* End                          *)
-(*   RdOps(raw,st,diff) Apply* End     Mut(kind,raw,st) Apply* End         *)
+(*   RdOps(raw,st,diff) Apply* End     Mut(kind,raw,st) Use* Apply* End    *)
 (***************************************************************************)
 EXTENDS DiffText, TraceCore
 FieldOrder == [k |-> 0, v |-> 0]   \* must stay the first definition of a root module (JsonValue.tla)
@@ -45,6 +45,11 @@ TMut ==
   /\ ctx' = [d |-> <<>>, have |-> FALSE]
   /\ Check(Term(Rec.st), "C13", <<"read", Rec.kind, Rec.st>>)
 
+(* a document that was read is used: rendered, compared, diffed against another document, patched *)
+TUse ==
+  /\ IsEvent("Use") /\ Consume /\ Keep /\ UNCHANGED ctx
+  /\ Check(Term(Rec.st), "C13", <<"use-document", Rec.kind, Rec.what, Rec.st>>)
+
 TApply ==
   /\ IsEvent("Apply") /\ Consume /\ Keep /\ UNCHANGED ctx
   /\ Check(Term(Rec.res.st), "C13", <<"patch", Rec.res.st>>)
@@ -54,6 +59,6 @@ TApply ==
 
 TEnd == IsEvent("End") /\ Consume /\ Keep /\ ctx' = NoCtx
 
-Next == TRdLines \/ TWild \/ TWildRender \/ TRdOps \/ TMut \/ TApply \/ TEnd \/ (Done /\ UNCHANGED <<doc, rest, status, ctx>>)
+Next == TRdLines \/ TWild \/ TWildRender \/ TRdOps \/ TMut \/ TUse \/ TApply \/ TEnd \/ (Done /\ UNCHANGED <<doc, rest, status, ctx>>)
 Spec == Init /\ [][Next]_vars
 =============================================================================
